@@ -36,6 +36,9 @@ ASSUMPTIONS = [
     "units do not move; when the identity of the active unit changes, the previous one is still in its recorded cell",
     "real runs use the event handlers as shipped, which support maximum_number_occupants = 1 only; other caps are "
     "covered at the unit level (and in runs until an unrelated event handler rejects the in-state)",
+    "negative direction (stays_in_cell_neg / active_unit_stays_in_recorded_cell_neg): 'no representable scalar lies between the lower "
+    "neighbour's cell_max and the cell's lower edge' is a hypothesis here; it is C16's `cells_abut` / `last_cell_reaches_top` "
+    "(rounding-abstract) and is evaluated on the real cell systems by C16's oracle (adjacent floats) and by this check's run oracle",
 ]
 TRUSTED = ["harness/c11_run.py (observation of real runs by wrapping methods at run time, nothing in the tree is edited)",
            "the numbering of identifiers and cells used to talk to the model (first-seen order / yield_cells order)"]
